@@ -139,7 +139,7 @@ def _mk(rng, MODE):
                   continue
               out.append([None, rng.choice(lexids), rng.choice(srcs), rng.choice(tgts), tyid[rng.choice(names)], relmeta()])
           return [[i + 1] + r[1:] for i, r in enumerate(out)]
-      t['synset_relations'] = rels(ssids, ssids, SYNRELS, rng.randint(8, 20) if MODE == 'expand' else rng.randint(0, 14))
+      t['synset_relations'] = rels(ssids, ssids, SYNRELS, rng.randint(6, 12) if MODE == 'expand' else rng.randint(0, 12))
       t['sense_relations'] = rels(sids, sids, SENRELS, rng.randint(0, 12))
       t['sense_synset_relations'] = rels(sids, ssids, SENSYNRELS, rng.randint(0, 6))
       t['definitions'] = [[i + 1, rng.choice(lexids), rng.choice(ssids), rng.choice([None, 'a def', 'another def']),
@@ -223,6 +223,8 @@ def fuel_universe(M=4, C=3):
 def pairs_for(unis, outs):
     pairs = []
     for u, rec in zip(unis, outs):
+        if rec.get('too_slow') or rec['obs'] is None:
+            continue
         for cfg, ob in zip(u['configs'], rec['obs']):
             pairs.append(coremodel.to_pair(u, rec, cfg, ob))
     return pairs
